@@ -83,6 +83,9 @@ def first_bytes(cls, ser, rng):
         return L.patch(inv if rng.random() < 0.5 else valid, 6, "!B", types[cls])
     if cls == "garbage":
         return bytes(rng.randrange(256) for _ in range(rng.choice([40, 60, 200])))
+    if cls == "short_foreign":
+        return rng.choice([b"GET / HTTP/1.1\r\n", b"PYRO\x00\x2f", b"PYRO\x00\x2f" + bytes(18), bytes(rng.randrange(256) for _ in range(39)),
+                           b"SSH-2.0-OpenSSH_9.2\r\n", b"\x16\x03\x01\x02\x00\x01\x00"])
     if cls == "bad_version":
         return L.patch(valid, 4, "!H", rng.choice([0, 501, 503, 65535]))
     if cls == "bad_magic":
@@ -154,9 +157,11 @@ def run_scenarios(scens, servertype, timeout, seed, validator_install="class"):
             hang = False
             try:
                 sc.quiesce()
-                # whatever the peer sends next (if it can still send) must not be executed either
-                rc.send(pipe_bytes("invoke_target", ser, 50) + pipe_bytes("invoke_daemon", ser, 51))
-                sc.quiesce()
+                if not (scen["first"] == "short_foreign" and not scen["pipe"]):
+                    # whatever the peer sends next (if it can still send) must not be executed either
+                    # (a peer that has sent less than a header of something else just waits: it must be turned away as it is)
+                    rc.send(pipe_bytes("invoke_target", ser, 50) + pipe_bytes("invoke_daemon", ser, 51))
+                    sc.quiesce()
             except S.Hang:
                 hang = True
             replies = rc.drain()
